@@ -1146,7 +1146,7 @@ def robust_family(run, replay=None):
         scen = run.generate('RobustGen', cfgtext='CONSTANTS Weak = {}\nINIT Init\nNEXT Next\nINVARIANT EmitInit\nCONSTRAINT OnlyInit\nCHECK_DEADLOCK FALSE\n')
         scen = [json.loads(x) for x in sorted(set(json.dumps(s) for s in scen))]
         attacks = []
-        for g in ["enc_length_checked", "aead_failure_answered", "values_comparable", "session_keyed_by_connection", "nonfinite_values_stay_encodable"]:
+        for g in ["enc_length_checked", "aead_failure_answered", "values_comparable", "session_keyed_by_connection", "nonfinite_values_stay_encodable", "degenerate_keys_answered"]:
             a = run.generate('RobustGen', cfgtext='CONSTANTS Weak = %s\nINIT Init\nNEXT Next\nINVARIANT NoAttack\nCHECK_DEADLOCK FALSE\n' % tla_set([g]), expect_violation=True)
             if not a:
                 raise ToolTrouble('no attack scenario for guard %s' % g)
@@ -1272,7 +1272,7 @@ def tlv8_family(run, replay=None):
 # TLV8 struct marshalling (C17)
 # =====================================================================================================
 
-TLV_SHAPES = ["leafAll", "small", "nested", "withLists", "lists2", "lists3", "onlyFloat", "onlyI64", "rtp.SetupEndpoints", "rtp.SetupEndpointsResponse", "rtp.StreamConfiguration",
+TLV_SHAPES = ["leafAll", "small", "nested", "withLists", "lists2", "lists3", "lists4", "onlyFloat", "onlyI64", "rtp.SetupEndpoints", "rtp.SetupEndpointsResponse", "rtp.StreamConfiguration",
               "rtp.VideoStreamConfiguration", "rtp.AudioStreamConfiguration", "rtp.StreamingStatus", "rtp.Configuration"]
 
 
